@@ -384,3 +384,46 @@ func (o *Ob) WritersWithin(T, F string, allowed map[string]string) {
 		o.Check(ok, "writer|"+F+"|"+n, T+"."+F+" is written ("+w.Kind+") by "+n+", which is not one of its owners", w.Instr)
 	}
 }
+
+// lockBalanceRule: in the given packages no function returns with a mutex it
+// acquired still held (unless an unlock is deferred on every path).
+func lockBalanceRule(o *Ob, pkgs ...string) {
+	lockBalanceRuleEx(o, nil, pkgs...)
+}
+
+// lockBalanceRuleEx is lockBalanceRule with named exemptions (function → reason).
+func lockBalanceRuleEx(o *Ob, exempt map[string]string, pkgs ...string) {
+	n := 0
+	for _, p := range pkgs {
+		for _, fn := range o.E.FuncsOfPkg(p) {
+			hasLock := false
+			for _, in := range AllInstrs(fn) {
+				if _, op := o.E.lockOp(in); op == "W" || op == "R" {
+					hasLock = true
+				}
+			}
+			if !hasLock {
+				continue
+			}
+			n++
+			o.SiteS(fnName(fn) + " acquires a mutex")
+			leaks := o.E.LockLeaks(fn)
+			if why, ok := exempt[fnName(fn)]; ok {
+				if len(leaks) > 0 {
+					o.Note("exempt from lock balance: %s — %s", fnName(fn), why)
+				}
+				continue
+			}
+			for _, l := range leaks {
+				o.Fail("lock-leak|"+fnName(fn)+"|"+l.Lock, fnName(fn)+" can return with "+l.Lock+" still held (no unlock on this path): every later writer, and then every reader, blocks forever", l.Ret)
+			}
+			if len(leaks) == 0 {
+				o.Checks++
+				o.Passed++
+			}
+		}
+	}
+	if n == 0 {
+		o.fail("lock-balance-vacuous", "no locking function found in "+strings.Join(pkgs, ", "), "?")
+	}
+}
